@@ -21,6 +21,9 @@ PY = sys.executable
 ROOT = os.path.dirname(os.path.dirname(os.path.dirname(os.path.abspath(__file__))))
 
 
+IDLE_S = float(os.environ.get("VF_IDLE_S", "40"))
+
+
 def _tree_cpu(pid):
     """utime+stime ticks of pid and all descendants."""
     total = 0
@@ -123,7 +126,22 @@ class _Worker:
 
         th = threading.Thread(target=reader, daemon=True)
         th.start()
-        th.join(timeout)
+        # wait for the answer; a worker whose whole process tree has used no CPU at all for IDLE_S seconds is not going to
+        # give one (a lock nobody holds, a codec library's threads waiting for each other): no need to sit out the wall-clock
+        # limit, which is sized for the slowest honest case
+        deadline = time.monotonic() + timeout
+        last_cpu, idle_since = _tree_cpu(self.proc.pid), None
+        while th.is_alive() and time.monotonic() < deadline:
+            th.join(2.0)
+            if not th.is_alive():
+                break
+            cpu = _tree_cpu(self.proc.pid)
+            if cpu <= last_cpu:
+                idle_since = idle_since or time.monotonic()
+                if time.monotonic() - idle_since >= IDLE_S:
+                    break
+            else:
+                last_cpu, idle_since = cpu, None
         if "res" in box:
             if box["res"].pop("_fatal", False):
                 # the worker exits after reporting (spinning threads cannot be stopped): start a fresh one
@@ -144,7 +162,7 @@ class _Worker:
                 pass
             time.sleep(0.2)
             kind = "deadlock" if samples[-1] - samples[0] <= 1 else "wall"
-            info = "".join(self.errbuf[-60:])
+            info = "".join(self.errbuf[-200:])
             self.kill()
             self.start()
             return None, kind, info
@@ -154,7 +172,7 @@ class _Worker:
             rc = self.proc.wait(timeout=5)
         except Exception:
             pass
-        info = "".join(self.errbuf[-60:])
+        info = "".join(self.errbuf[-200:])
         self.kill()
         self.start()
         if rc is not None and rc < 0:
@@ -178,7 +196,15 @@ def blocked_inside(info):
     # faulthandler prints most recent call first; the dump taken last is the most recent state
     blocks = re.split(r"(?:Current thread|Thread) 0x[0-9a-f]+ \(most recent call first\):", info)
     last = blocks[-1] if len(blocks) > 1 else info
-    m = re.search(r'File "([^"]+)", line (\d+) in (\S+)', last)
+    m = None
+    for m in re.finditer(r'File "([^"]+)", line (\d+) in (\S+)', last):
+        # the harness's own pass-through wrappers at a library boundary (monitors counting threads, recording calls) are not the
+        # code that is blocked: look below them
+        if m.group(1).startswith(os.path.join(ROOT, "vf") + os.sep) and m.group(3) in ("decode", "decompress"):
+            continue
+        break
+    else:
+        m = None
     if not m:
         return None
     fn, line, func = m.group(1), int(m.group(2)), m.group(3)
